@@ -172,6 +172,11 @@ fn edge_variants(schema: &SchemaModel, ty: &str) -> Vec<(String, Vec<(String, FV
     if let Some(t) = schema.types.get(ty) {
         for f in &t.fields {
             if schema.is_edge(f) {
+                if f.name == "req" {
+                    // required parameter: only the explicit form is a valid query
+                    out.push((f.name.clone(), vec![("k".into(), values::i(1))]));
+                    continue;
+                }
                 out.push((f.name.clone(), vec![]));
                 if f.name == "nb" {
                     out.push((f.name.clone(), vec![("min".into(), values::i(2))]));
@@ -604,6 +609,14 @@ fn invalid_deviations(schema: &SchemaModel, q: &Query, infos: &[NodeInfo], out: 
     }
     for ni in infos {
         if schema.field(&ni.ty, "nb").is_some() && count_vertices(q) < 4 {
+            for params in [vec![], vec![("k", FV::Null)], vec![("k", values::s("a"))]] {
+                let mut e = EdgeUse::new("req");
+                e.params = params.into_iter().map(|(k, v)| (k.to_string(), v)).collect();
+                e.node.items.push(Item::Prop(PropUse::new("id")));
+                let mut q2 = q.clone();
+                node_at_mut(&mut q2, &ni.path).items.push(Item::Edge(e));
+                out.push(q2);
+            }
             for params in [vec![("min", values::s("a"))], vec![("min", FV::Null)], vec![("tag", values::i(1))], vec![("zz", values::i(1))], vec![("min", FV::Float64(1.5))], vec![("min", values::i(1)), ("min", values::i(2))]] {
                 let mut e = EdgeUse::new("nb");
                 e.params = params.into_iter().map(|(k, v)| (k.to_string(), v)).collect();
